@@ -293,7 +293,12 @@ def classify(call, ev, clause):
         # i.e. on an angle, whose distribution is centred on zero
         key["class"] = "positive-distribution-with-centre-not-positive"
         res = ev.get("res") or ev.get("res1")
-        key["outcome"] = res["error"] if res["raised"] else "non-finite weights returned"
+        if res["raised"]:
+            key["outcome"] = res["error"]
+        elif any(not math.isfinite(float(w)) for w in res["w"]):
+            key["outcome"] = "non-finite weights returned"
+        else:
+            key["outcome"] = "finite weights returned"
     else:
         key["class"] = clause
     return key
@@ -312,6 +317,7 @@ def check_events(chk, calls, events, label):
     batches, results = validate(events)
     agg = {}
     skips = {}
+    rejected = set()
     for evs, v in zip(batches, results):
         chk.cov["traces_validated_against_impl"] += len(evs)
         chk.cov["transitions"] += v["states"]
@@ -321,6 +327,7 @@ def check_events(chk, calls, events, label):
             reason = txt.rsplit('"', 2)[-2] if '"' in txt else txt
             skips[reason] = skips.get(reason, 0) + 1
         for tid, line, clause, detail in v["rejects"]:
+            rejected.add(tid)
             ev = evs[line - 1] if 0 < line <= len(evs) else None
             call = by_tid.get(tid, {})
             key = classify(call, ev, clause) if ev else {"clause": clause}
@@ -336,14 +343,15 @@ def check_events(chk, calls, events, label):
     for reason, n in skips.items():
         chk.notes.setdefault("not_judged", {})
         chk.notes["not_judged"][reason] = chk.notes["not_judged"].get(reason, 0) + n
-    return agg
+    return rejected
 
 
-def selftest_corruption(chk, events):
-    """Binding self-test: a corrupted field of a recorded event must be rejected by the trace module."""
+def selftest_corruption(chk, events, rejected):
+    """Binding self-test: a corrupted field of a recorded (and accepted) event must be rejected by
+    the trace module."""
     def pick(pred):
         for e in events:
-            if e["ev"] == "GetW" and not e["res"]["raised"] and pred(e):
+            if e["ev"] == "GetW" and e["tid"] not in rejected and not e["res"]["raised"] and pred(e):
                 return json.loads(json.dumps(e))
         return None
     tests = []
@@ -374,6 +382,9 @@ def selftest_corruption(chk, events):
         e["q"]["value"] = repr(float(e["q"]["value"]) * 1.01)
         tests.append(("lognormal centre off by 1%", e, {"values", "weights", "proportional", "inside-support"}))
     if len(tests) < 3:
+        if rejected:     # the implementation is being rejected wholesale: nothing sound to corrupt
+            chk.notes["corruption_selftest"] = "skipped: too few accepted events"
+            return
         raise vlib.Machinery("corruption self-test: not enough suitable events")
     for k, (_, e, _) in enumerate(tests):
         e["tid"] = k + 1
@@ -409,8 +420,8 @@ def run(chk, args):
     tables = tab[0]["pars"]
     calls = make_calls(chk, lattice, tables, rng)
     events = run_calls(calls)
-    check_events(chk, calls, events, "replay")
-    selftest_corruption(chk, events)
+    rejected = check_events(chk, calls, events, "replay")
+    selftest_corruption(chk, events, rejected)
     # coverage bookkeeping
     nres = {}
     for e in events:
